@@ -177,8 +177,9 @@ class UpdateContext():
         the update argument is missing in *value*'s context.
         """
         import jinja2
+        from lena.flow import get_data_context
         # data, context = value
-        data, context = lena.flow.get_data_context(value)
+        data, context = get_data_context(value)
         if isinstance(self._update, (str, jinja2.Template)):
             if self._context_value:
                 if not self._has_default:
